@@ -206,6 +206,14 @@ def prop_violation(ops):
                 and "Names" not in w.cls["CFramer"].__dict__:
             own = w.houses[w.fh[op[1]]].names["tasker"]     # the registry of the framer's OWN house
             expect = (own, bool(op[2]) and op[2] in own)
+        dup = None
+        if op[0] in ("create", "house", "createin"):
+            cname = "CHouse" if op[0] == "house" else ("CFramer" if op[0] == "createin" else op[1])
+            nk = op[1] if op[0] == "house" else op[2]
+            if isinstance(nk, str) and nk and nk != "bad":
+                reg_ = w.cls[cname].Names
+                if nk in reg_:
+                    dup = (cname, nk, reg_, list(reg_.keys()), [list(d.keys()) for d in w.heap])
         before = None
         if op[0] == "prune" and op[1] < len(w.framers):
             before = [(d, dict(d)) for d in w.heap]
@@ -218,6 +226,17 @@ def prop_violation(ops):
                         return {"step": i, "op": op, "key": "c47-prune-foreign-entry",
                                 "why": "prune() of framer %r removed the registry entry %r of ANOTHER live instance "
                                        "(the namespace that was current belongs to another house)" % (fr.name, nm)}
+        if dup is not None:
+            cname, nk, reg_, keys0, heap0 = dup
+            if r != [2]:
+                got_name = "".join(chr(x) for x in r[2:2 + r[1]]) if r and r[0] == 1 else None
+                return {"step": i, "op": op, "key": "c47-explicit-duplicate-accepted",
+                        "why": "explicit name %r already exists in the current %s namespace but the creation was not "
+                               "rejected with ParameterError (result: %s)" % (
+                                   nk, CLSNAME[cname], "created as %r" % got_name if got_name else r)}
+            if [list(d.keys()) for d in w.heap[:len(heap0)]] != heap0:
+                return {"step": i, "op": op, "key": "c47-explicit-duplicate-accepted",
+                        "why": "explicit duplicate %r was rejected but a registry changed" % nk}
         if expect is not None:
             own, taken = expect
             rejected = r[0] in (2, 4)
